@@ -110,10 +110,13 @@ class TeeSys:
         self.source = ClosableSource() if closable else Source()
         self.lock = Lock() if uselock else None
         self.tee = L.tee(self.source, n=n, lock=self.lock) if uselock else L.tee(self.source, n=n)
-        self.children = list(self.tee)
+        # children are looked up one by one, each when it is first used (tee[i] is as good as unpacking the handle)
+        self._children = {}
         try:
             self.bufs = [weakref.ref(b) for b in self.tee._buffers]  # never keep a buffer alive ourselves
-        except AttributeError:
+            if len(self.bufs) != n:      # a private detail that is laid out differently: not looked at then
+                self.bufs = None
+        except (AttributeError, TypeError):
             self.bufs = None
         self.task = {c: None for c in range(1, n + 1)}
         self.cs = {c: "unstarted" for c in range(1, n + 1)}
@@ -198,6 +201,11 @@ class TeeSys:
             self.cs[c] = "closed"
         self._flush()
 
+    def child(self, c):
+        if c not in self._children:
+            self._children[c] = self.tee[c - 1]
+        return self._children[c]
+
     def busy(self):
         return [c for c in sorted(self.cs) if self.cs[c] in ("lockwait", "insrc", "exiting", "foreign")]
 
@@ -228,7 +236,7 @@ class TeeSys:
         self.current = c
         if a == "anext":
             self.ever_started[c] = True
-            t = Task(self.children[c - 1].__anext__(), self.acct)
+            t = Task(self.child(c).__anext__(), self.acct)
             self.task[c] = t
             self._after(c, t.step())
         elif a in ("grant", "tick", "exit"):
@@ -241,7 +249,7 @@ class TeeSys:
             self.fail_next = False
         elif a == "close":
             started = self.ever_started[c]
-            r = Task(self.children[c - 1].aclose(), self.acct).run()
+            r = Task(self.child(c).aclose(), self.acct).run()
             if r[0] == "raised":
                 self.ev(e="error", c=c, what="aclose:" + type(r[1]).__name__)
                 self.cs[c] = "error"
